@@ -10,7 +10,8 @@ MANIFEST = dict(
          "Ties: (F) the expression tree of native/operator.go is regenerated and decided equal to the modelled composition; (K, equality) that composition built from the real core operators with a hand-fired boundary, "
          "and the real ulule operator over a deterministic store, equal the model on exhaustive small + seeded timelines; (K, real time) the real native limiter with its Interval is run on seeded timelines and the OBSERVED "
          "timed trace is ACCEPTED by an executable acceptor whose soundness is proved (accepts_sound) - acceptance of observations, not equality with a model."
-         ' rate profile=stall (a ~100-window stall followed by a tight producer); per-key order through a GroupBy group whose consumer is still being replayed the backlog (kind=nextret order field).',
+         ' rate profile=stall (a ~100-window stall followed by a tight producer); per-key order through a GroupBy group whose consumer is still being replayed the backlog (kind=nextret order field).'
+         ' The deterministic store records and performs Reset calls (an operator never resets the shared store); op=native-twin: one limiter value, two live streams.',
     technique="Lean 4 proof (induction over timelines; Mealy machine = list composition) + regenerated composition fact + differential correspondence (logical, ulule) + proved acceptor on observed real-time traces",
     ref='5/C20')
 
